@@ -220,6 +220,24 @@ func (c *Ctx) nafCheck(p *load.Program, f *ssa.Function, w int) (bool, string) {
 	}
 	in := absint.New(p, d)
 	sc := absint.Ptr{Obj: in.NewObject("s", p.Root.Members["Scalar"].Type(), nil)}
+	// the scalar's integer value taken as four words straight from the Montgomery form of the scalar itself (what Bytes
+	// serialises: FIAT-CONG / C08): the same 253 bits, 64 to a word
+	d.Prims["fiatScalarFromMontgomery"] = func(in *absint.Interp, site ssa.Instruction, args []absint.Val) []absint.Val {
+		src, ok := args[1].(absint.Ptr)
+		if !ok || src.Obj != sc.Obj {
+			in.Undecided(site, "fiatScalarFromMontgomery of something other than the scalar being recoded")
+		}
+		arr := &absint.Agg{Elems: make([]absint.Val, 4)}
+		for i := range arr.Elems {
+			n := 64
+			if 64*i+64 > nafScalarBits {
+				n = nafScalarBits - 64*i
+			}
+			arr.Elems[i] = absint.BVSymPadded("k", 64*i, n, 64)
+		}
+		in.Store(site, args[0], arr)
+		return nil
+	}
 	ls, first, out := in.RunToHeader(f, []absint.Val{sc, absint.MkInt(int64(w))}, header)
 	if out.Kind != absint.ExitReturn {
 		return false, "before the loop: " + out.Undecided + out.PanicMsg
